@@ -80,7 +80,10 @@ def run_real(progs, env=None, timeout=300, args=()):
             results[i] = {"out": recs[k]["out"] if k < len(recs) else "", "res": ("crash", why)}
             todo = todo[k + 1:]
 
-    chunks = [list(range(i, n, C.NCPU)) for i in range(C.NCPU)]
+    # at most 100 programs (= engines) per child process: an engine never returns its JIT code mappings (open finding
+    # K07ah), and a process that has created a few hundred engines runs into vm.max_map_count and aborts
+    per = max(1, min(100, (n + C.NCPU - 1) // C.NCPU))
+    chunks = [list(range(i, min(i + per, n))) for i in range(0, n, per)]
     C.pool_map(run_chunk, [c for c in chunks if c])
     return results
 
